@@ -2,41 +2,41 @@
    agrees with the language of the pattern", C02 "leftmost start", at the level pattern AST ->
    compiled automaton -> reference search.  Statements only; proofs in Compile.v / Regex.v. *)
 From Coq Require Import List NArith Lia Bool Arith.
-From CV Require Import Nfa NfaRef Utf8 ClassAuto Regex Compile.
+From CV Require Import Nfa NfaRef Utf8 ClassAuto Regex Compile CompileSpec CompileUtf8.
 Import ListNotations.
 
-Theorem L0_compile_wf : forall r, re_ok r = true -> no_dot r = true -> wf_nfa (compile r) = true.
+Theorem L0_compile_wf : forall r, re_ok r = true -> wf_nfa (compile r) = true.
 Proof. exact compile_wf. Qed.
 Print Assumptions L0_compile_wf.
 
-Theorem L0_compile_sound : forall r, re_ok r = true -> no_dot r = true ->
+Theorem L0_compile_sound : forall r, re_ok r = true ->
   forall h i j, i <= length h ->
   nfa_path (compile r) h (start_anch (compile r)) i j -> re_match code_atoms r h i j.
 Proof. exact compile_sound. Qed.
 Print Assumptions L0_compile_sound.
 
-Theorem L0_compile_complete : forall r, re_ok r = true -> no_dot r = true ->
+Theorem L0_compile_complete : forall r, re_ok r = true ->
   forall h i j, re_match code_atoms r h i j -> nfa_path (compile r) h (start_anch (compile r)) i j.
 Proof. exact compile_complete. Qed.
 Print Assumptions L0_compile_complete.
 
-Theorem C01_compile_is_match : forall r, re_ok r = true -> no_dot r = true ->
+Theorem C01_compile_is_match : forall r, re_ok r = true ->
   forall h, is_match_ref (compile r) h = Done true <-> exists i j, re_match code_atoms r h i j.
 Proof. exact compile_is_match. Qed.
 Print Assumptions C01_compile_is_match.
 
-Theorem C02_compile_find_leftmost : forall r, re_ok r = true -> no_dot r = true ->
+Theorem C02_compile_find_leftmost : forall r, re_ok r = true ->
   forall h at_ s e sl, find_at (compile r) h at_ = Done (Some (s, e, sl)) ->
   at_ <= s /\ re_match code_atoms r h s e /\ forall i j, at_ <= i < s -> ~ re_match code_atoms r h i j.
 Proof. exact compile_find_leftmost. Qed.
 Print Assumptions C02_compile_find_leftmost.
 
-Theorem C01_compile_find_none : forall r, re_ok r = true -> no_dot r = true ->
+Theorem C01_compile_find_none : forall r, re_ok r = true ->
   forall h at_, find_at (compile r) h at_ = Done None -> forall i j, at_ <= i -> ~ re_match code_atoms r h i j.
 Proof. exact compile_find_none. Qed.
 Print Assumptions C01_compile_find_none.
 
-Theorem L0_compile_find_total : forall r, re_ok r = true -> no_dot r = true ->
+Theorem L0_compile_find_total : forall r, re_ok r = true ->
   forall h at_, find_at (compile r) h at_ <> OutOfFuel.
 Proof. exact compile_find_total. Qed.
 Print Assumptions L0_compile_find_total.
@@ -50,8 +50,77 @@ Theorem L0_nfa_iso_check_sound : forall n1 n2, nfa_eqb n1 n2 = true ->
 Proof. exact nfa_iso_check_sound. Qed.
 Print Assumptions L0_nfa_iso_check_sound.
 
-Theorem L0_check_case_sound : forall c, check_case c = true -> no_dot (c_re c) = true ->
+Theorem L0_check_case_sound : forall c, check_case c = true ->
   wf_nfa (c_nfa c) = true /\
   forall h, (is_match_ref (c_nfa c) h = Done true <-> exists i j, re_match code_atoms (c_re c) h i j).
 Proof. exact check_case_sound. Qed.
 Print Assumptions L0_check_case_sound.
+
+(* ---- against the specification over well-formed UTF-8 (CompileSpec.v) *)
+Theorem L0_multibyte_spec : forall bs,
+  in_seqs bs utf8_multibyte = true <-> exists c, is_scalar c = true /\ (128 <= c)%N /\ bs = encode c.
+Proof. exact multibyte_spec. Qed.
+Print Assumptions L0_multibyte_spec.
+
+Theorem L0_any_spec_le_code : forall nl bs, as_any spec_atoms nl bs -> as_any code_atoms nl bs.
+Proof. exact any_spec_le_code. Qed.
+Print Assumptions L0_any_spec_le_code.
+
+Theorem L0_any_code_le_spec_refuted : exists nl bs, as_any code_atoms nl bs /\ ~ as_any spec_atoms nl bs.
+Proof. exact any_code_le_spec_refuted. Qed.
+Print Assumptions L0_any_code_le_spec_refuted.
+
+Theorem L0_class_ascii_exact : forall ranges bs, is_ascii_class ranges = true ->
+  (as_class code_atoms ranges bs <-> as_class spec_atoms ranges bs).
+Proof. exact class_ascii_exact. Qed.
+Print Assumptions L0_class_ascii_exact.
+
+Theorem L0_class_small_spec_le_code : forall ranges bs, is_small_class ranges = true ->
+  as_class spec_atoms ranges bs -> as_class code_atoms ranges bs.
+Proof. exact class_small_spec_le_code. Qed.
+Print Assumptions L0_class_small_spec_le_code.
+
+Theorem L0_class_small_code_le_spec : forall ranges bs, is_small_class ranges = true ->
+  no_surrogates ranges = true -> as_class code_atoms ranges bs -> as_class spec_atoms ranges bs.
+Proof. exact class_small_code_le_spec. Qed.
+Print Assumptions L0_class_small_code_le_spec.
+
+Theorem L0_class_covers_all_spec_le_code : forall ranges bs, is_covers_all_class ranges = true ->
+  as_class spec_atoms ranges bs -> as_class code_atoms ranges bs.
+Proof. exact class_covers_all_spec_le_code. Qed.
+Print Assumptions L0_class_covers_all_spec_le_code.
+
+Theorem L0_class_covers_all_matches_cont_byte : forall ranges b, is_covers_all_class ranges = true ->
+  (128 <= b <= 255)%N -> as_class code_atoms ranges [b].
+Proof. exact class_covers_all_matches_cont_byte. Qed.
+Print Assumptions L0_class_covers_all_matches_cont_byte.
+
+Theorem C01_compile_spec_complete_partial : forall r, re_ok r = true -> atoms_all atom_complete_known r ->
+  forall h i j, re_match spec_atoms r h i j -> nfa_path (compile r) h (start_anch (compile r)) i j.
+Proof. exact compile_spec_complete_partial. Qed.
+Print Assumptions C01_compile_spec_complete_partial.
+
+Theorem C01_compile_spec_sound_partial : forall r, re_ok r = true -> atoms_all atom_exact_known r ->
+  forall h i j, i <= length h ->
+  nfa_path (compile r) h (start_anch (compile r)) i j -> re_match spec_atoms r h i j.
+Proof. exact compile_spec_sound_partial. Qed.
+Print Assumptions C01_compile_spec_sound_partial.
+
+Theorem C01_compile_spec_sound_refuted :
+  re_ok not_a_twice = true /\ e_acute = encode 0xE9 /\
+  (exists sl, find_at (compile not_a_twice) e_acute 0 = Done (Some (0, 2, sl))) /\
+  nfa_path (compile not_a_twice) e_acute (start_anch (compile not_a_twice)) 0 2 /\
+  forall i j, ~ re_match spec_atoms not_a_twice e_acute i j.
+Proof. exact compile_spec_sound_refuted. Qed.
+Print Assumptions C01_compile_spec_sound_refuted.
+
+(* ---- the 3-byte range splitter of compileUTF83ByteRangeSimple (CompileUtf8.v) *)
+Theorem L0_seqs3_simple_sound : forall lo hi bs, (0x800 <= lo)%N -> (lo <= hi)%N -> (hi <= 0xFFFF)%N ->
+  in_seqs bs (seqs3_simple lo hi) = true -> exists c, (lo <= c <= hi)%N /\ bs = enc3 c.
+Proof. exact seqs3_simple_sound. Qed.
+Print Assumptions L0_seqs3_simple_sound.
+
+Theorem L0_seqs3_simple_complete : forall lo hi c, (0x800 <= lo)%N -> (hi <= 0xFFFF)%N ->
+  (hi <= 0xD7FF \/ 0xE000 <= lo)%N -> (lo <= c <= hi)%N -> in_seqs (enc3 c) (seqs3_simple lo hi) = true.
+Proof. exact seqs3_simple_complete. Qed.
+Print Assumptions L0_seqs3_simple_complete.
